@@ -469,6 +469,53 @@ def main(chk):
           chk.violation(key, f'three applies on the same variables return {outs}, the NNX module 13.0 each time', {})
     except Exception as e:
       chk.violation(key, f'raised {type(e).__name__}: {str(e)[:200]} (sequence of applies on the same variables)', {})
+  # a user-defined Linen AxisMetadata box (no from_nnx_metadata): the wrapper keeps its fields and computes like the Linen module
+  from flax import struct as _struct
+
+  class NoteBox(_struct.PyTreeNode, nn.meta.AxisMetadata):
+    value: jax.Array
+    note: str = _struct.field(pytree_node=False, default='')
+
+    def unbox(self):
+      return self.value
+
+    def replace_boxed(self, val):
+      return self.replace(value=val)
+
+    def add_axis(self, index, params):
+      return self
+
+    def remove_axis(self, index, params):
+      return self
+
+  class BoxedLin(nn.Module):
+    @nn.compact
+    def __call__(self, x):
+      w = self.param('w', lambda k: NoteBox(jnp.asarray([1.0, 2.0, 3.0]), note='hello'))
+      c = self.variable('batch_stats', 'c', lambda: NoteBox(jnp.zeros(()), note='count'))
+      if self.is_mutable_collection('batch_stats'):
+        c.value = c.value + 1.0
+      return jnp.sum(x * w) + c.value
+  chk.count('C18:ToNNX:user-defined-box')
+  try:
+    xb = jnp.ones((3,))
+    lin = BoxedLin()
+    lv = lin.init(jax.random.key(0), xb)
+    w = bridge.ToNNX(BoxedLin(), rngs=nnx.Rngs(0))
+    bridge.lazy_init(w, xb)
+    outs = [float(w(xb, mutable=['batch_stats'])), float(w(xb)), float(w(xb, mutable=['batch_stats']))]
+    want, lvv = [], lv
+    for mut in (True, False, True):
+      if mut:
+        o, upd = lin.apply(lvv, xb, mutable=['batch_stats'])
+        lvv = {**lvv, **upd}
+      else:
+        o = lin.apply(lvv, xb)
+      want.append(float(o))
+    if outs != want or w.w.get_metadata().get('note') != 'hello' or type(w.c) is not nnx.BatchStat:
+      chk.violation('C18:ToNNX:user-defined-box', f'calls return {outs}, the Linen module {want}; metadata {w.w.get_metadata()}; type of c {type(w.c).__name__}', {})
+  except Exception as e:
+    chk.violation('C18:ToNNX:user-defined-box', f'raised {type(e).__name__}: {str(e)[:200]}', {})
   # a failing lazy_init leaves an initialised wrapper as it was (a stuttering step of the specification)
   chk.count('C18:ToNNX:failed-lazy_init')
   try:
